@@ -29,6 +29,8 @@ type World struct {
 	Probe *lib.Bundle   // a valid child of the chain's head (what sync would offer next)
 	L1    *core.L1Head  // nil = never set
 	Floor uint64        // blocks below Floor have been pruned (0 = nothing pruned)
+	// States[i] = abstract state after block i (oracle for historical reads)
+	States []*lib.AbsState
 }
 
 func (w *World) Height() int { return len(w.Chain) - 1 }
@@ -641,6 +643,127 @@ func checkNode(bc *blockchain.Blockchain, w *World, ghost *lib.Bundle, qs [][2]*
 		p.add("l1-head-differs", "L1Head() = %+v, %v; expected block %d", l1, err, w.L1.BlockNumber)
 	}
 	return p
+}
+
+// checkRetention: what pruning may and may not have removed. The store's oldest retained block F
+// (first block with a commitments record) must be w.Floor; every block at or above F must be
+// fully present (checkNode looks at them, including hash / transaction-hash / L1-message
+// lookups); every block below F must be fully absent — commitments, state update, transactions,
+// transaction-hash and L1-message lookups, hash->number mapping — except for the two documented
+// carve-outs: the hash->number mapping of F-1 and the headers of the last BlockHashLag blocks
+// below F. The state history must still serve reads at F-1 and at F.
+func checkRetention(store db.KeyValueReader, bc *blockchain.Blockchain, w *World, p *problems) {
+	if len(w.Chain) == 0 {
+		return
+	}
+	f, err := pruner.OldestRetainedBlock(store)
+	if err != nil {
+		p.add("retention-floor-unreadable", "OldestRetainedBlock: %v", err)
+		return
+	}
+	if f != w.Floor {
+		p.add("retention-floor-differs", "OldestRetainedBlock = %d, expected %d", f, w.Floor)
+		return
+	}
+	for n := uint64(0); n < f && int(n) <= w.Height(); n++ {
+		b := w.Chain[n]
+		if _, err := bc.BlockCommitmentsByNumber(n); !isNotFound(err) {
+			p.add("pruned-block-visible", "BlockCommitmentsByNumber(%d) below the floor %d: %v", n, f, err)
+		}
+		if _, err := bc.StateUpdateByNumber(n); !isNotFound(err) {
+			p.add("pruned-block-visible", "StateUpdateByNumber(%d) below the floor %d: %v", n, f, err)
+		}
+		if _, _, err := bc.TransactionsAndReceiptsByBlockNumber(n); !isNotFound(err) {
+			p.add("pruned-block-visible", "TransactionsAndReceiptsByBlockNumber(%d) below the floor %d: %v", n, f, err)
+		}
+		_, err := bc.BlockNumberByHash(b.Block.Hash)
+		switch {
+		case n+1 == f && err != nil:
+			p.add("retention-carve-out-missing", "hash->number mapping of block %d (the block below the oldest retained one) is gone: %v", n, err)
+		case n+1 < f && !isNotFound(err):
+			p.add("pruned-block-visible", "BlockNumberByHash(block %d) below the floor %d: %v", n, f, err)
+		}
+		_, err = bc.BlockHeaderByNumber(n)
+		switch {
+		case n+core.BlockHashLag >= f && err != nil:
+			p.add("retention-carve-out-missing", "header of block %d (within BlockHashLag of the floor %d) is gone: %v", n, f, err)
+		case n+core.BlockHashLag < f && !isNotFound(err):
+			p.add("pruned-block-visible", "BlockHeaderByNumber(%d) more than BlockHashLag below the floor %d: %v", n, f, err)
+		}
+		for i, tx := range b.Block.Transactions {
+			if _, _, err := bc.BlockNumberAndIndexByTxHash((*felt.TransactionHash)(tx.Hash())); !isNotFound(err) {
+				p.add("pruned-block-visible", "tx %d of pruned block %d still resolves: %v", i, n, err)
+			}
+			if l1, ok := tx.(*core.L1HandlerTransaction); ok {
+				mh := eth.Hash(l1.MessageHash())
+				if _, err := bc.L1HandlerTxnHash(&mh); !isNotFound(err) {
+					p.add("pruned-block-visible", "L1 message of pruned block %d still resolves: %v", n, err)
+				}
+			}
+		}
+	}
+	// historical state: one below the floor, the floor, and the block below the head
+	at := map[uint64]bool{f: true}
+	if f > 0 {
+		at[f-1] = true
+	}
+	if w.Height() >= 1 && uint64(w.Height()-1) >= f {
+		at[uint64(w.Height()-1)] = true
+	}
+	for n := range at {
+		if int(n) > w.Height() || int(n) >= len(w.States) {
+			continue
+		}
+		checkHistory(bc, w, n, p)
+	}
+}
+
+// checkHistory reads the state as of block n and compares it with the fold of the diffs 0..n.
+func checkHistory(bc *blockchain.Blockchain, w *World, n uint64, p *problems) {
+	reader, closer, err := bc.StateAtBlockNumber(n)
+	if err != nil {
+		p.add("historical-state-unreadable", "StateAtBlockNumber(%d) (floor %d, head %d): %v", n, w.Floor, w.Height(), err)
+		return
+	}
+	defer func() { _ = closer() }()
+	st := w.States[n]
+	bad, first := 0, ""
+	note := func(format string, a ...any) {
+		bad++
+		if first == "" {
+			first = fmt.Sprintf(format, a...)
+		}
+	}
+	// every contract / slot known at the head, as of block n
+	head := w.States[w.Height()]
+	for a, hc := range head.Contracts {
+		c := st.Contracts[a]
+		for k := range hc.Storage {
+			want := felt.Zero
+			if c != nil {
+				want = c.Storage[k]
+			}
+			got, err := reader.ContractStorage(&a, &k)
+			if err != nil && st.Deployed[a] {
+				note("storage %s[%s] at block %d: %v", a.String(), k.String(), n, err)
+			} else if err == nil && !got.Equal(&want) {
+				note("storage %s[%s] at block %d = %s, the chain says %s", a.String(), k.String(), n, got.String(), want.String())
+			}
+		}
+		if st.Deployed[a] && c != nil {
+			nn, err := reader.ContractNonce(&a)
+			if err != nil || !nn.Equal(&c.Nonce) {
+				note("nonce of %s at block %d = %s (%v), the chain says %s", a.String(), n, nn.String(), err, c.Nonce.String())
+			}
+			ch, err := reader.ContractClassHash(&a)
+			if err != nil || !ch.Equal(&c.Class) {
+				note("class hash of %s at block %d = %s (%v), the chain says %s", a.String(), n, ch.String(), err, c.Class.String())
+			}
+		}
+	}
+	if bad > 0 {
+		p.add("historical-state-differs", "%d reads of the state at block %d differ from the fold of the chain's diffs; first: %s", bad, n, first)
+	}
 }
 
 // storeProbe offers the world's probe block to a node and checks that it became the head.
